@@ -1,7 +1,7 @@
 #!/bin/bash
 # run_all.sh [tier] [seed]: every registered check on the current tree (development aid)
 T=${1:-quick}; S=${2:-1}
-cd /verif
+cd "${VERIF_ROOT:-$(cd "$(dirname "${BASH_SOURCE[0]}")/.." && pwd)}"
 for i in 01 02 03 04 05 06 07 08 09 10 11 12 13 14 15 16 17 18 19 20; do
   s=$(date +%s); out=$(./check C$i --tier $T --seed $S 2>&1); rc=$?
   echo "C$i rc=$rc $(( $(date +%s)-s ))s :: $(echo "$out" | grep -E '^(VIOLATION|KNOWN-FINDING|OK|INTERNAL)' | cut -c1-120 | tr '\n' ';')"
